@@ -139,6 +139,11 @@ func (s *LinearState) Load(ctx *Context) error {
 		return err
 	}
 	s.Facts = make(map[string]RawFact, len(pairs))
+	if s.addHook != nil {
+		// As in IndexedState: the hook runs inside the locked section.
+		s.withPrivilege(ctx)
+		defer s.withoutPrivilege(ctx)
+	}
 	for _, pair := range pairs {
 		id := string(pair.K)
 		js := pair.V
@@ -147,6 +152,14 @@ func (s *LinearState) Load(ctx *Context) error {
 		if err != nil {
 			Log(DEBUG, ctx, "LinearState.Load", "error", err, "js", string(js))
 			return err
+		}
+		if s.addHook != nil {
+			// As IndexedState.Load does (through add): the hook sees
+			// what is loaded.
+			if err = s.addHook(ctx, s, id, m, true); err != nil {
+				Log(ERROR, ctx, "LinearState.Load", "state", s.Name, "error", err, "when", "addHook", "id", id)
+				return err
+			}
 		}
 		s.Facts[id] = RawFact{m, js}
 	}
@@ -193,11 +206,17 @@ func (s *LinearState) Add(ctx *Context, id string, x Map) (string, error) {
 		return id, err
 	}
 
+	old, have := s.Facts[id]
 	if _, isRule := m["rule"]; isRule {
-		if _, have := s.Facts[id]; have {
+		if have {
 			// Hope we're really replacing a rule.
 			Metric(ctx, "RuleUpdated", "location", s.Name, "ruleId", id)
 		}
+	}
+	if have && !scheduled(m) {
+		// The replaced record leaves, and the add hook has not
+		// registered the new one in its place.
+		s.unhook(ctx, id, old.M)
 	}
 	s.Facts[id] = RawFact{m, bs}
 
@@ -218,13 +237,26 @@ func (s *LinearState) Rem(ctx *Context, id string) (bool, error) {
 		}
 	}
 
-	done, err := s.rem(ctx, id, true)
+	// The hook has run for this id (not for its dependents).
+	done, err := s.rem(ctx, id, true, false)
 	// The cascade searches for dependents and can meet expired items.
 	s.purge(ctx)
 	return done, err
 }
 
-func (s *LinearState) rem(ctx *Context, id string, lock bool) (bool, error) {
+// unhook runs the rem hook for a record that leaves the state other
+// than as the argument of Rem.  The record leaves whatever the hook
+// says: an error is logged.  The caller holds the write lock.
+func (s *LinearState) unhook(ctx *Context, id string, fact Map) {
+	if err := runRemHook(ctx, s, s.remHook, id, fact); err != nil {
+		Log(ERROR, ctx, "LinearState.unhook", "state", s.Name, "error", err,
+			"id", id, "when", "remHook")
+	}
+}
+
+// rem removes the given id and its dependents.  With unhook, the rem
+// hook is run for the id, too (Rem has done that itself).
+func (s *LinearState) rem(ctx *Context, id string, lock bool, unhook bool) (bool, error) {
 	Log(DEBUG, ctx, "LinearState.rem", "id", id)
 	s.cachedRules.drop(id)
 	// The storage write and the memory update are one critical section.
@@ -238,9 +270,12 @@ func (s *LinearState) rem(ctx *Context, id string, lock bool) (bool, error) {
 		Log(ERROR, ctx, "LinearState.rem", "id", id, "error", err)
 		return false, err
 	}
-	_, had := s.Facts[id]
+	rf, had := s.Facts[id]
 	if had {
 		Log(DEBUG, ctx, "LinearState.Rem", "found", id)
+		if unhook {
+			s.unhook(ctx, id, rf.M)
+		}
 	} else {
 		Log(DEBUG, ctx, "LinearState.Rem", "missing", id)
 	}
@@ -278,7 +313,7 @@ func (s *LinearState) deleteDependencies(ctx *Context, id string) error {
 			Log(WARN, ctx, "LinearState.deleteDependencies", "loop", id)
 			continue
 		}
-		if _, err := s.rem(ctx, target, false); nil != err {
+		if _, err := s.rem(ctx, target, false, true); nil != err {
 			return err
 		}
 	}
@@ -460,25 +495,49 @@ func (s *LinearState) FindCachedRules(ctx *Context, event Map) (map[string]*Rule
 	return acc, nil
 }
 
+// remHooks runs the rem hook for every fact (expired or not), as
+// IndexedState.remHooks does.  The caller holds the write lock.
+func (s *LinearState) remHooks(ctx *Context) error {
+	if s.remHook == nil {
+		return nil
+	}
+	for id, rf := range s.Facts {
+		if err := runRemHook(ctx, s, s.remHook, id, rf.M); err != nil {
+			Log(ERROR, ctx, "LinearState.remHooks", "state", s.Name, "error", err,
+				"id", id, "when", "remHook")
+			return err
+		}
+	}
+	return nil
+}
+
 func (s *LinearState) Clear(ctx *Context) error {
 	Log(INFO, ctx, "LinearState.Clear", "name", s.Name)
-	// The storage write and the memory update are one critical section.
+	// The hooks, the storage write and the memory update are one
+	// critical section.
 	s.slock(ctx, false)
+	defer s.sunlock(ctx, false)
+	if err := s.remHooks(ctx); err != nil {
+		return err
+	}
 	_, err := s.store.Clear(ctx, s.Name)
 	s.Facts = make(map[string]RawFact)
 	s.cachedRules.clear()
-	s.sunlock(ctx, false)
 	return err
 }
 
 func (s *LinearState) Delete(ctx *Context) error {
 	Log(DEBUG, ctx, "LinearState.Delete", "name", s.Name)
-	// The storage write and the memory update are one critical section.
+	// The hooks, the storage write and the memory update are one
+	// critical section.
 	s.slock(ctx, false)
+	defer s.sunlock(ctx, false)
+	if err := s.remHooks(ctx); err != nil {
+		return err
+	}
 	err := s.store.Delete(ctx, s.Name)
 	s.Facts = make(map[string]RawFact)
 	s.cachedRules.clear()
-	s.sunlock(ctx, false)
 	return err
 }
 
@@ -560,7 +619,7 @@ func (s *LinearState) purge(ctx *Context) {
 			if expired, _ := checkExpiration(ctx, rf.M, 0); !expired {
 				continue
 			}
-			if _, err := s.rem(ctx, id, false); err != nil {
+			if _, err := s.rem(ctx, id, false, true); err != nil {
 				Log(ERROR, ctx, "LinearState.purge", "name", s.Name, "id", id, "error", err)
 			}
 		}
